@@ -5,7 +5,8 @@
 (* for the real Watcher.                                                      *)
 EXTENDS WatchReq, TLC, Json
 
-CONSTANTS Ifaces, Masks, AllMasks, Changes, Depth, MaxSubs, MaxBatchLen
+CONSTANTS Ifaces, Masks, AllMasks, Changes, Depth, MaxSubs, MaxBatchLen,
+          EmitMod     \* print one history in EmitMod (a checksum over the buffers decides which)
 
 TheMasks == IF AllMasks THEN 1..127 ELSE Masks
 
@@ -36,5 +37,8 @@ Bounded   == \A k \in 1..Len(w.subs) : Len(w.subs[k].buf) <= Cap
 OnlyAsked == \A k \in 1..Len(w.subs) : \A j \in 1..Len(w.subs[k].buf) : Intersects(w.subs[k].mask, w.subs[k].buf[j])
 ClosedIffEnded == \A k \in 1..Len(w.subs) : w.subs[k].closed = (w.ended /\ ~w.subs[k].late)
 NoFlag == w.bad = {}
-Emit == (Len(hist) = Depth) => PrintT(ToJson([h |-> hist]))
+RECURSIVE SumSeq(_)
+SumSeq(q) == IF q = <<>> THEN 0 ELSE Head(q) + SumSeq(Tail(q))
+Checksum == LET per == [k \in 1..Len(w.subs) |-> SumSeq(w.subs[k].buf) + w.subs[k].mask * k] IN SumSeq(per) + Len(w.subs) * 7
+Emit == (Len(hist) = Depth /\ Checksum % EmitMod = 0) => PrintT(ToJson([h |-> hist]))
 =============================================================================
